@@ -81,7 +81,8 @@ func gen(t *rapid.T) Case {
 	case "wkt":
 		c.D = genWKTDef(t)
 		c.WKTOpt = projkit.WKTOpts{ESRI: rapid.Bool().Draw(t, "esri"), Authority: rapid.Bool().Draw(t, "auth"), UnitFirst: rapid.Bool().Draw(t, "unitfirst"),
-			Reverse: rapid.Bool().Draw(t, "reverse"), Axis: rapid.Bool().Draw(t, "axis")}
+			Reverse: rapid.Bool().Draw(t, "reverse"), Axis: rapid.Bool().Draw(t, "axis"),
+			Sep: rapid.SampledFrom([]string{"", "", " ", "\n    "}).Draw(t, "sep")}
 		c.Variant = rapid.IntRange(0, 5).Draw(t, "variant")
 		c.Lon, c.Lat = projkit.GenPosition(t, c.D)
 		c.ViaShp = rapid.IntRange(0, 9).Draw(t, "viashp") == 0
